@@ -14,7 +14,7 @@ import (
 func init() {
 	Register(&Property{
 		ID:    "C36",
-		Floor: 120,
+		Floor: 285,
 		Clauses: "dnsmessage pack/unpack agreement as structure: for header, Question, ResourceHeader and each of the 14 resource bodies the packer and the unpacker apply the same source-ordered sequence of wire primitives " +
 			"(uint16/uint32/type/class/name/text/bytes) to the same struct fields (SVCB: the unpacker's two passes are the packer's prefix, the key/length pair, then the full parameter loop); " +
 			"the set of ResourceBody implementations, their realType constants, the cases of unpackResourceBody (each case calls the unpacker of the type whose realType is the case constant and boxes that type), " +
@@ -143,7 +143,7 @@ func c36(c *Ctx) {
 	urb := dm + "unpackResourceBody"
 	if fn := c.MustFn(urb); fn != nil {
 		seen := map[string]bool{}
-		EachInstr_h3dns(fn, func(in ssa.Instruction) {
+		ForEachInstr(fn, func(in ssa.Instruction) {
 			call, ok := in.(*ssa.Call)
 			if !ok {
 				return
@@ -226,7 +226,7 @@ func c36(c *Ctx) {
 		if t != "Unknown" {
 			c.Reject(pf, unp, "$r.resHeaderType != "+realType[t])
 		}
-		c.ErrChecked_h3dns(pf, unp, 1, Union(RetOK(), Stores(dm+"Parser.off")))
+		c.ErrChecked(pf, unp, 1, Union(RetOK(), Stores(dm+"Parser.off")))
 		c.Count(pf, Stores(dm+"Parser.off").StoredIs("($r.off+$r.resHeaderLength)"), 1, 1)
 		builderMethod(c, bf, body, "(*"+dm+"Builder).checkResourceSection")
 	}
@@ -234,7 +234,7 @@ func c36(c *Ctx) {
 	gp := "(*" + dm + "Parser).genericSVCBResource"
 	c.Reject(gp, Calls(dm+"unpackSVCBResource"), "!$r.resHeaderValid")
 	c.Reject(gp, Calls(dm+"unpackSVCBResource"), "$r.resHeaderType != $0")
-	c.ErrChecked_h3dns(gp, Calls(dm+"unpackSVCBResource"), 1, Union(RetOK(), Stores(dm+"Parser.off")))
+	c.ErrChecked(gp, Calls(dm+"unpackSVCBResource"), 1, Union(RetOK(), Stores(dm+"Parser.off")))
 	c.Count(gp, Stores(dm+"Parser.off").StoredIs("($r.off+$r.resHeaderLength)"), 1, 1)
 	c.Callers(gp, "(*"+dm+"Parser).SVCBResource", "(*"+dm+"Parser).HTTPSResource")
 	builderMethod(c, "(*"+dm+"Builder).genericSVCBResource", "(*"+dm+"SVCBResource).", "(*"+dm+"Builder).checkResourceSection")
@@ -248,9 +248,9 @@ func c36(c *Ctx) {
 	c.Reject(rp, Union(hp, Calls(".realType")), "$r.Body == nil")
 	c.Count(rp, hp.ArgIs(2, "$1").ArgIs(3, "$2"), 1, 1)
 	c.Count(rp, Calls(".pack").ArgIs(0, "pack(&$r.Header,$0,$1,$2)#0").ArgIs(1, "$1").ArgIs(2, "$2"), 1, 1)
-	c.ErrChecked_h3dns(rp, hp, 2, Union(Calls(".pack"), RetOK()))
-	c.ErrChecked_h3dns(rp, Calls(".pack"), 1, RetOK())
-	c.ErrChecked_h3dns(rp, Calls("(*"+dm+"ResourceHeader).fixLen"), -1, RetOK())
+	c.ErrChecked(rp, hp, 2, Union(Calls(".pack"), RetOK()))
+	c.ErrChecked(rp, Calls(".pack"), 1, RetOK())
+	c.ErrChecked(rp, Calls("(*"+dm+"ResourceHeader).fixLen"), -1, RetOK())
 	fixLenArgs(c, rp)
 
 	// ---- fixLen
@@ -271,22 +271,22 @@ func c36(c *Ctx) {
 	c.Count(ap, Calls(rp).ArgIs(2, "makemap").ArgIs(3, "len($0)"), 3, 3)
 	if fn := c.MustFn(ap); fn != nil {
 		n := 0
-		EachInstr_h3dns(fn, func(in ssa.Instruction) {
+		ForEachInstr(fn, func(in ssa.Instruction) {
 			if _, ok := in.(*ssa.MakeMap); ok {
 				n++
 			}
 		})
 		c.Check(n == 1, "single-source", ap+": one compression map shared by all sections", fn.Pos(), "", fmt.Sprintf("%d maps created", n))
 	}
-	c.ErrChecked_h3dns(ap, Calls(rp), 1, RetOK())
-	c.ErrChecked_h3dns(ap, Calls("(*"+dm+"Question).pack"), 1, RetOK())
+	c.ErrChecked(ap, Calls(rp), 1, RetOK())
+	c.ErrChecked(ap, Calls("(*"+dm+"Question).pack"), 1, RetOK())
 	c.Count("(*"+dm+"Builder).Finish", Calls("(*"+dm+"header).pack").ArgIs(0, "&$r.header").ArgIs(1, "$r.msg[$r.start:$r.start]"), 1, 1)
 	c.StoredFrom(dm+"NewBuilder", Stores(dm+"Builder.start"), "len() of the initial buffer", IsCallTo("builtin:len"))
 	c.Before(dm+"NewBuilder", Stores(dm+"Builder.start"), Calls("builtin:append"))
 	bq := "(*" + dm + "Builder).Question"
 	c.Count(bq, Calls("(*"+dm+"Question).pack").ArgIs(1, "$r.msg").ArgIs(2, "$r.compression").ArgIs(3, "$r.start"), 1, 1)
-	c.ErrChecked_h3dns(bq, Calls("(*"+dm+"Question).pack"), 1, Union(Stores(dm+"Builder.msg"), RetOK()))
-	c.ErrChecked_h3dns(bq, Calls("(*"+dm+"Builder).incrementSectionCount"), -1, Union(Stores(dm+"Builder.msg"), RetOK()))
+	c.ErrChecked(bq, Calls("(*"+dm+"Question).pack"), 1, Union(Stores(dm+"Builder.msg"), RetOK()))
+	c.ErrChecked(bq, Calls("(*"+dm+"Builder).incrementSectionCount"), -1, Union(Stores(dm+"Builder.msg"), RetOK()))
 	c.Writers(dm+"Builder.compression", "(*"+dm+"Builder).EnableCompression")
 
 	// ---- Name.pack
@@ -301,12 +301,12 @@ func c36(c *Ctx) {
 		var lab ssa.Value
 		var labStore ssa.Instruction
 		var ptrHi, ptrLo ssa.Value
-		EachInstr_h3dns(fn, func(in ssa.Instruction) {
+		ForEachInstr(fn, func(in ssa.Instruction) {
 			st, ok := in.(*ssa.Store)
 			if !ok || !strings.HasPrefix(Term(st.Addr), "&%varargs[") {
 				return
 			}
-			v := stripConv_h3dns(st.Val)
+			v := stripConv(st.Val)
 			if bo, ok := v.(*ssa.BinOp); ok {
 				switch bo.Op {
 				case token.SUB:
@@ -329,7 +329,7 @@ func c36(c *Ctx) {
 		// pointer emission and table insertion
 		upd := Sel{Name: "compression map update", F: func(p *Prog, f *ssa.Function) []ssa.Instruction {
 			var out []ssa.Instruction
-			EachInstr_h3dns(f, func(in ssa.Instruction) {
+			ForEachInstr(f, func(in ssa.Instruction) {
 				if _, ok := in.(*ssa.MapUpdate); ok {
 					out = append(out, in)
 				}
@@ -338,7 +338,7 @@ func c36(c *Ctx) {
 		}}
 		ups := upd.F(c.P, fn)
 		var look *ssa.Lookup
-		EachInstr_h3dns(fn, func(in ssa.Instruction) {
+		ForEachInstr(fn, func(in ssa.Instruction) {
 			if l, ok := in.(*ssa.Lookup); ok && Term(l.X) == "$1" {
 				look = l
 			}
@@ -416,13 +416,13 @@ func builderMethod(c *Ctx, bf, body, check string) {
 		}), 1, 1)
 		c.Before(bf, Stores(dm+"ResourceHeader.Type"), hp)
 	}
-	c.ErrChecked_h3dns(bf, Calls(check), -1, Union(hp, commit))
+	c.ErrChecked(bf, Calls(check), -1, Union(hp, commit))
 	c.Count(bf, hp.ArgIs(1, "$r.msg").ArgIs(2, "$r.compression").ArgIs(3, "$r.start"), 1, 1)
 	c.Count(bf, bp.Where("arg1 = message returned by the header packer", argResultOf(1, 0, "(*"+dm+"ResourceHeader).pack")).ArgIs(2, "$r.compression").ArgIs(3, "$r.start"), 1, 1)
-	c.ErrChecked_h3dns(bf, hp, 2, Union(bp, commit))
-	c.ErrChecked_h3dns(bf, bp, 1, Union(fl, commit))
-	c.ErrChecked_h3dns(bf, fl, -1, commit)
-	c.ErrChecked_h3dns(bf, Calls("(*"+dm+"Builder).incrementSectionCount"), -1, commit)
+	c.ErrChecked(bf, hp, 2, Union(bp, commit))
+	c.ErrChecked(bf, bp, 1, Union(fl, commit))
+	c.ErrChecked(bf, fl, -1, commit)
+	c.ErrChecked(bf, Calls("(*"+dm+"Builder).incrementSectionCount"), -1, commit)
 	c.Count(bf, Stores(dm+"Builder.msg").Where("value = result of the body packer", func(in ssa.Instruction) bool {
 		ex, ok := in.(*ssa.Store).Val.(*ssa.Extract)
 		return ok && ex.Index == 0 && IsCallTo(body+"pack")(ex.Tuple)
@@ -457,11 +457,11 @@ func pointerLayout(c *Ctx, np string, hi, lo ssa.Value, ptrTerm string) {
 	rule := "pointer-layout"
 	var mask, shift int64 = -1, -1
 	if bo, ok := hi.(*ssa.BinOp); ok && bo.Op == token.OR {
-		if k, ok := stripConv_h3dns(bo.Y).(*ssa.Const); ok {
+		if k, ok := stripConv(bo.Y).(*ssa.Const); ok {
 			mask, _ = IntOf64(k)
 		}
-		if sh, ok := stripConv_h3dns(bo.X).(*ssa.BinOp); ok && sh.Op == token.SHR && Term(stripConv_h3dns(sh.X)) == ptrTerm {
-			if k, ok := stripConv_h3dns(sh.Y).(*ssa.Const); ok {
+		if sh, ok := stripConv(bo.X).(*ssa.BinOp); ok && sh.Op == token.SHR && Term(stripConv(sh.X)) == ptrTerm {
+			if k, ok := stripConv(sh.Y).(*ssa.Const); ok {
 				shift, _ = IntOf64(k)
 			}
 		}
@@ -477,12 +477,12 @@ func pointerLayout(c *Ctx, np string, hi, lo ssa.Value, ptrTerm string) {
 			continue
 		}
 		var and, xor, shl int64 = -1, -1, -1
-		EachInstr_h3dns(fn, func(in ssa.Instruction) {
+		ForEachInstr(fn, func(in ssa.Instruction) {
 			bo, ok := in.(*ssa.BinOp)
 			if !ok {
 				return
 			}
-			k, isK := stripConv_h3dns(bo.Y).(*ssa.Const)
+			k, isK := stripConv(bo.Y).(*ssa.Const)
 			if !isK {
 				return
 			}
